@@ -604,6 +604,10 @@ def slStreamFrame (r : R) (fr : Frame) : R :=
     | none => u.1
     | some uid => knownStream u.1 uid fr wasClosing
 
+/-- SETTINGS_HEADER_TABLE_SIZE, when the frame carries it, is applied to the encoder by the stream loop -/
+def applyTableSize (r : R) (st : Frame.SettingsVal) : R :=
+  if st.hasTableSize then { r with s := { r.s with enc := r.s.enc.setMax st.tableSize } } else r
+
 /-- the check before `continue` in the connection-level branch: the flush may have finished the last
 stream a GOAWAY was waiting for -/
 def closeIfClosing (r : R) : R := if r.s.closing && canCloseAfterGoAway r.s then stopLoop r else r
@@ -625,6 +629,8 @@ def slFrame (r : R) (fr : Frame) : R :=
   if fr.stream == 0 then
     match fr.body with
     | .settings st =>
+      -- the stream loop owns the encoder: SETTINGS_HEADER_TABLE_SIZE is applied here, between header blocks
+      let r := applyTableSize r st
       if st.hasWindowSize then
         let delta : Int := (st.windowSize : Int) - r.s.curInitWin
         let x := applyDelta delta r.s.strms
@@ -682,7 +688,8 @@ def handleSettings (r : R) (st : Frame.SettingsVal) : R :=
   let ts := match announced with
     | some (_, v) => v
     | none => r.s.peerTableSize
-  let s := { r.s with peerFrameSize := st.frameSize, peerTableSize := ts, enc := r.s.enc.setMax ts, peerDec := pd }
+  -- (the encoder itself is resized by the stream loop, which owns it: `slFrame`)
+  let s := { r.s with peerFrameSize := st.frameSize, peerTableSize := ts, peerDec := pd }
   ({ r with s := s } : R).emit .settingsAck
 
 /-- frames on stream 0 -/
